@@ -233,8 +233,23 @@ class _StripCasts(ast.NodeTransformer):
         return node
 
 
+def clone(node: Any) -> Any:
+    """Deep copy of an AST that does not follow the `_parent` back links."""
+    if isinstance(node, ast.AST):
+        new = node.__class__()
+        for f, v in ast.iter_fields(node):
+            setattr(new, f, clone(v))
+        for a in ("lineno", "col_offset", "end_lineno", "end_col_offset"):
+            if hasattr(node, a):
+                setattr(new, a, getattr(node, a))
+        return new
+    if isinstance(node, list):
+        return [clone(x) for x in node]
+    return node
+
+
 def strip_casts(node: ast.AST) -> ast.AST:
-    return _StripCasts().visit(copy.deepcopy(node))
+    return _StripCasts().visit(clone(node))
 
 
 def nun(node: ast.AST | None) -> str:
